@@ -3,22 +3,6 @@ from .common import *
 from .c05 import SPLIT
 
 
-def copied_from(body, op):
-    """name of the user variable an operand was copied from (through plain copies/moves only)"""
-    if op.place is None or not op.place.is_local:
-        return None
-    l = op.place.local
-    for _ in range(6):
-        if body.local_name(l):
-            return body.local_name(l)
-        d = body.unique_def(l)
-        if isinstance(d, Stmt) and d.rv.kind == "use" and d.rv.ops[0].place is not None and d.rv.ops[0].place.is_local:
-            l = d.rv.ops[0].place.local
-        else:
-            return None
-    return None
-
-
 def atom_of(body, term):
     """which Nagle atom does this switch test?  returns (name, value_of_atom_when_operand_is_true) or None"""
     c, neg = switch_cond(body, term)
